@@ -2,3 +2,28 @@
 from vlib.props import convprops as P, convcommon as cc
 from vlib import convgen as g
 globals().update(P.make('C10', 'conv probe over a real in-process TLS upgrade: walks and sweeps in TLS configurations with STARTTLS at a random point, optionally with plaintext (MAIL/RCPT) injected behind the STARTTLS line in the same segment. non-trivial = at least one callback', ['C10 (via Order monitor, pending)'], None, lambda a: cc.project(a, codes='class', enh=False, ehlo=True, drecs='none'), tls=True, configs=g.TLS_CONFIGS, structural=True))
+
+# --- client half: NewClientStartTLS / package-level SendMail against scripted, possibly misbehaving servers -----------
+from vlib.core import Group as _Group
+from vlib import cstlsgen as _cs
+_conv_groups = groups
+RULE = RULE + (" | cstls probe (client half): the real client upgrades against a live scripted server over net.Pipe (NewClientStartTLS) and "
+               "over loopback TCP (package-level SendMail): EHLO replies with/without STARTTLS x STARTTLS replies {220, multi-line 220, 454, "
+               "501, 421, EOF, 250} x replies injected behind the 220 in the same segment {none, 250, a capability list, 235, a whole "
+               "transaction} x peer {real TLS handshake, answers the ClientHello with plaintext / an alert / HTTP / nothing / EOF} x inner EHLO "
+               "{other capability sets, refused -> HELO, EOF} x later calls; judged: nothing but EHLO/HELO/STARTTLS/QUIT/NOOP/RSET on the raw "
+               "socket, EHLO renegotiated inside TLS, nothing succeeds without a TLS session; and compared with the Lean client model")
+TRUSTED = TRUSTED + ["crypto/tls is real on both ends of the cstls probe and abstracted in the model: a handshake succeeds iff the peer speaks "
+                     "TLS, and the TLS session is a fresh octet stream; SendMail cases use loopback TCP (one reply per segment only)"]
+
+
+def groups(tier, rng):
+    return _conv_groups(tier, rng) + [_Group("cstls/new-client-starttls", _cs.new_cases(tier, rng), theorems=THEOREMS),
+                                      _Group("cstls/package-sendmail", _cs.sendmail_cases(tier, rng), theorems=THEOREMS)]
+
+
+_nt, _sig, _mut, _shr = nontrivial, signature, mutate, shrink
+nontrivial = lambda case, ans: ("\tok\t" in ans or "\tfailed\t" in ans) if case.startswith("cstls") else _nt(case, ans)
+signature = lambda case, ans: ("cstls/" + case.split("\t")[1] + "/" + (ans.split("\t") + ["", ""])[1]) if case.startswith("cstls") else _sig(case, ans)
+mutate = lambda case, rng: [] if case.startswith("cstls") else _mut(case, rng)
+shrink = lambda case: [] if case.startswith("cstls") else _shr(case)
